@@ -16,7 +16,7 @@ RULE = ("histories of 1..12 calls on one ECDH object over a pool of 2..4 Curve o
         "two-party exchanges with boundary scalar pairs and pairs whose secret has leading zero bytes (searched on toy "
         "curves, fixed vectors re-verified on named curves); distinct = distinct history line; non-trivial = history "
         "contains at least one generate_sharedsecret(_bytes) call")
-EXTRA_PROPS = ["C05g"]   # GroupReading discharged for Model/Curve.lean from C06/C07 (Proofs/GroupInterface.lean)
+EXTRA_PROPS = ["C05g", "C05b"]   # C05b: secret_bytes with the number_to_string facts discharged; C05g: GroupReading discharged for Model/Curve.lean from C06/C07 (Proofs/GroupInterface.lean)
 ASSUMPTIONS = [
     "Curve/SigningKey/VerifyingKey objects are not mutated behind the ECDH object's back (C19 covers value stability)",
     "key constructors are parameters of the model (their outcome is supplied per history until Model/Keys.lean is linked); "
@@ -517,6 +517,41 @@ def small_order_points(cs):
     return _TT[key]
 
 
+def sqrt_mod(a, p):
+    """a square root of a mod p (p = 3 mod 4 or small), or None"""
+    a %= p
+    if p % 4 == 3:
+        r = pow(a, (p + 1) // 4, p)
+        return r if r * r % p == a else None
+    for r in range(p):
+        if r * r % p == a:
+            return r
+    return None
+
+
+_OFFSUB = {}
+
+
+def off_subgroup_points(cs, rng, want=3):
+    """points ON the curve but outside <G> of a named curve with cofactor != 1 (SECP112r2, h = 4), by the textbook
+    law: x = 2, 3, ... lifted to the curve, kept if n*P != O.  [(P, known)] with known = 'K2' iff n*P has y = 0"""
+    key = cs.cv
+    if key not in _OFFSUB:
+        out = []
+        x = 1
+        while len(out) < 8 and x < 200:
+            x += 1
+            y = sqrt_mod(x * x * x + cs.a * x + cs.b, cs.p)
+            if y is None:
+                continue
+            P = (x, y)
+            nP = n_times(cs, P)
+            if nP is not None:
+                out.append((P, "K2" if nP[1] == 0 else None))
+        _OFFSUB[key] = out
+    return rng.sample(_OFFSUB[key], min(want, len(_OFFSUB[key])))
+
+
 def gen_priv_op(ctx, cslist, main):
     """a private-key operation: mostly valid for curve `main`"""
     rng = ctx.rng
@@ -605,8 +640,13 @@ def gen_pub_op(ctx, cslist, main, peer_d=None):
                 if not (two_torsion(cs.cv)):
                     meta["expect"] = "reject"
         elif m < 0.24 and cs.obj.name == "SECP112r2":
-            P = (0xb1fd8de127d4656b573eb513984d, 0)     # K2: the point of order 2
-            enc = rng.choice(["raw", "uncompressed"])
+            if rng.random() < 0.4:
+                P = (0xb1fd8de127d4656b573eb513984d, 0)     # K2: the point of order 2
+                enc = rng.choice(["raw", "uncompressed"])
+            else:
+                P, kn = off_subgroup_points(cs, rng, 1)[0]   # on the curve, outside <G> (orders 4n, 2n: K2 for 2n)
+                if kn is None:
+                    meta["expect"] = "reject"
         b = enc_point(cs, P, enc)
         if 0.24 <= m < 0.3:
             b = bytes([rng.choice([0, 1, 5, 8, 0xff])]) + b[1:] if enc != "raw" else b + b"\x01\x02"
@@ -771,6 +811,22 @@ def all_histories(ctx):
     for enc in ("raw", "uncompressed", "hybrid"):
         hs.append(({"curves": [{"name": "SECP112r2"}], "init": {"c": 0, "sk": [0, 5], "vk": None},
                     "ops": [["loadpubbytes", enc_point(k2cs, k2, enc).hex()], ["secret"], ["secretbytes"]]}, None, "k2-witness"))
+    # remote keys on the curve but outside the prime-order subgroup of SECP112r2 (cofactor 4), every encoding, DER and PEM
+    from ecdsa import der as _der
+    from ecdsa.keys import VerifyingKey as _VK
+    for (P, kn) in off_subgroup_points(k2cs, rng, 4):
+        good = _sk(k2cs, 7).verifying_key
+        for enc in ("raw", "uncompressed", "compressed", "hybrid", "der", "pem"):
+            if enc in ("der", "pem"):
+                body = enc_point(k2cs, P, "uncompressed")
+                blob = _der.encode_sequence(_der.encode_sequence(_der.encode_oid(1, 2, 840, 10045, 2, 1), k2cs.obj.encoded_oid),
+                                            _der.encode_bitstring(body, 0))
+                op = ["loadpubder", blob.hex()] if enc == "der" else ["loadpubpem", _der.topem(blob, "PUBLIC KEY").hex()]
+            else:
+                op = ["loadpubbytes", enc_point(k2cs, P, enc).hex()]
+            hs.append(({"curves": [{"name": "SECP112r2"}], "init": {"c": 0, "sk": [0, 5], "vk": None},
+                        "ops": [op, ["secret"], ["secretbytes"]]},
+                       [{"expect": "reject", "for": 0} if kn is None else {}, {}, {}], "off-subgroup"))
     # the result at infinity: remote object of small order (odd cofactor), d a multiple of that order
     for t in ("H3a", "H3b"):
         cs = CurveSpec(toy_spec(t))
